@@ -434,6 +434,19 @@ class Interp:
                 return _Iter(self.iterate(args[0]))
             if f.id == "warn":
                 return None
+            if f.id in ("getattr", "hasattr") and len(args) >= 2 and isinstance(args[1], str):
+                try:
+                    v = self.getattr(args[0], args[1], fi)
+                    found = True
+                except (PyRaise, InterpUnsupported):
+                    v, found = None, False
+                if f.id == "hasattr":
+                    return found
+                if found:
+                    return v
+                if len(args) == 3:
+                    return args[2]
+                raise PyRaise("AttributeError", args[1])
             if f.id == "range" and args and all(isinstance(a_, int) and not isinstance(a_, bool) for a_ in args):
                 return list(range(*args))
             if f.id == "range":
